@@ -180,6 +180,9 @@ def list_targets(coredata: cdata.CoreData, builddata: build.Build, backend: back
         if outdir == 'meson-out' and target.get_build_subdir():
             # layout=flat keeps build_subdir below meson-out, like the backend does
             outdir = os.path.join(outdir, target.get_build_subdir())
+        if isinstance(target, build.CompileTarget):
+            # The outputs of a compile target are written to its private directory
+            outdir = backend.get_target_private_dir(target)
         t = {
             'name': target.get_basename(),
             'id': idname,
